@@ -234,7 +234,7 @@ def n_nodes(sizes):
 SPECIAL = [0.5, 0.25, 0.125, 1 / 3, 1 / 7, 0.1, 0.2, 0.3, 1e-200, 5e-324, 1e-160, 0.0625, 2 / 3, 0.7, 1.0, 1e-5]
 
 
-def random_float_ruleset(rng, path):
+def random_float_ruleset(rng, path, normalize_base=False):
     """a well-formed ruleset with alpha (+masks), digit, other types, optional Markov structure,
     Prince grammar; returns a description for evidence."""
     def probs(n):
@@ -301,6 +301,11 @@ def random_float_ruleset(rng, path):
     ps = [rng.choice(SPECIAL) if rng.random() < 0.6 else rng.random() for _ in structs]
     if rng.random() < 0.3 and len(ps) > 1:
         ps[1] = ps[0]
+    if normalize_base:
+        # well-formed list: sums to 1 and 1 - P(M) is representable (P(M) < 1 unless M stands alone)
+        ps = [max(p, 1e-6) for p in ps]
+        tot = sum(ps)
+        ps = [p / tot for p in ps] if tot > 0 else ps
     base = sorted(zip(structs, ps), key=lambda x: -x[1])
     prince = [(n, p) for n, p in zip(names, probs(len(names)))]
     omen_prob = [(1, 0.25), (2, 0.125), (3, 0.0), (4, 0.0)] if rng.random() < 0.5 else [(1, 1 / 3), (2, 1 / 3), (3, 0.01)]
